@@ -244,6 +244,32 @@ Ltac unfold_fixes O p HV l :=
 
 Ltac qsimp := unfold Q2R; cbn [QArith_base.Qnum QArith_base.Qden]; rewrite ?Rinv_1, ?Rmult_1_r.
 
+(* ---- several stages sharing one object state ----
+   S gives the value of every attribute ("s.<name>") of the object; V is the environment of
+   one translated function (its locals and the attributes it reads / writes).  [stage O P S V]
+   says V is a model of P that agrees with the object state on every attribute name. *)
+Definition is_attr (x : string) : bool := String.prefix "s." x.
+Definition agrees {I : Type} (V S : string -> I -> R) : Prop := forall x, is_attr x = true -> V x = S x.
+Record stage {I : Type} (O : ops I) (P : prog) (S V : string -> I -> R) : Prop := {
+  st_fix : is_fix O P V;
+  st_agree : agrees V S
+}.
+Definition is_const {I : Type} (f : I -> R) : Prop := exists c, f = fun _ => c.
+
+(* rewrite every attribute read V "s.x" into S "s.x" *)
+Ltac to_state Hst :=
+  repeat match goal with
+         | |- context [?V (String ?a ?b)] =>
+             lazymatch type of Hst with
+             | stage _ _ ?S V =>
+                 let x := constr:(String a b) in
+                 let t := eval vm_compute in (is_attr x) in
+                 lazymatch t with
+                 | true => rewrite (st_agree _ _ _ _ Hst x (eq_refl true))
+                 end
+             end
+         end.
+
 (* ---- tactics ---- *)
 Ltac unfold_def_opt O p Hssa rho x :=
   let d := eval vm_compute in (defn p x) in
